@@ -256,7 +256,7 @@ package cdcn
 //@   safe
 //@   modifies everything
 //@   ensures[C11] localfresh(this.tokens_) && localfresh(this.next_)
-//@   assumeat call8: nonnilq(this.tokens_)
+//@   assumeat call Make#2: nonnilq(this.tokens_)
 //@   loop 1:
 //@     invariant pready(this)
 //@     decreases *
@@ -295,7 +295,7 @@ package cdcn
 //@   props C12 C19
 //@   safe
 //@   modifies view(this.tokens_), put(this.tokens_)
-//@   hint before call3: token != nil
+//@   hint before call AddValue#1: token != nil
 //@ func (*scanner_).foundEOF
 //@   props C12 C19
 //@   safe
@@ -370,7 +370,7 @@ package cdcn
 //@   noinv
 //@   requires this.maximum_ >= 0
 //@   modifies this.depth_, sbtext(fieldaddr(this, result_))
-//@   hint call1: this.depth_ == 0 && fbuf(this) == ""
+//@   hint call Reset#1: this.depth_ == 0 && fbuf(this) == ""
 //@   ensures[C10] this.depth_ == 0 && fbuf(this) == ""
 
 //@ func (*formatter_).formatValue
